@@ -281,6 +281,23 @@ def run(ctx):
             [gen_tokens_text(ctx.rng) for _ in range(n // 3)]
     cmp("Expr.check_expr", exprs, lambda s: "expr|" + enc(s), lambda s: impl_expr(declast, s))
     cmp("Expr.print_expr", exprs, lambda s: "printexpr|" + enc(s), lambda s: impl_printexpr(declast, todict, s))
+    # how many of the accepted expressions meet the hypotheses of C11_printed_expression_reparses; and on the IMPLEMENTATION the
+    # theorem's conclusion: re-reading the printed text of such an expression gives the same tree
+    cres = drv.pbatch(["ecanon|" + enc(s) for s in exprs])
+    for s_, c_ in zip(exprs, cres):
+        ctx.hist("reparse-theorem:" + {"IN": "in", "OUT": "out", "NA": "rejected"}.get(c_, c_))
+        if c_.startswith("IN-BUT"):
+            ctx.broken.append(("proof", "C11_printed_expression_reparses-vs-model", "%r: %s" % (s_, c_)))
+        if c_ == "IN":
+            i1 = impl_printexpr(declast, todict, s_)
+            if i1.startswith("OK|"):
+                t1 = vlib.dec(i1[3:])
+                a1, a2 = impl_expr(declast, s_), impl_expr(declast, t1)
+                ctx.count(1, ("reparse", s_))
+                if a1 != a2:
+                    ctx.violation("failing-input", {"what": "re-reading the text Shroud prints for an expression does not give the same expression "
+                                                            "(inside the canonical form of theorem C11_printed_expression_reparses)",
+                                                    "input": {"expression": s_, "printed": t1, "first": a1[:300], "second": a2[:300]}})
     enums = DIRECTED + [gen_enum(ctx.rng, i, weird=(i % 4 == 0)) for i in range(n)]
     # only texts whose first token is the enum keyword: other declarations belong to the Decl model (C09/C17)
     etxt = [e[0] for e in enums] + ["enum " + gen_tokens_text(ctx.rng) for _ in range(n // 3)]
